@@ -15,7 +15,7 @@ from ..own import Ownership
 from ..symx import Expander, TupleV, ref_eval
 from ..anf import R
 from .. import anf
-from .common import struct_ob, formula_ob, guard, last_return
+from .common import struct_ob, formula_ob, guard, last_return, U
 from .C03 import ownership_obligations
 from ..report import AnalysisError
 
@@ -33,7 +33,7 @@ def acq_expander(prog, ci, branch):
     ex.opaque_self_attrs = {"mu_max", "gp", "kappa"}
 
     def hook(e, node, env):
-        f = ast.unparse(node.func)
+        f = U(node.func)
         if f == "self.gp":
             return TupleV([R.sym("MU"), R.sym("SIG")])
         if f == "self.gp.spatial_derivatives":
@@ -52,7 +52,7 @@ def acq_expander(prog, ci, branch):
 def is_tail_switch(node):
     """The two-arm switch whose first arm uses the erfcx-based ratio (the far-tail form)."""
     return isinstance(node, ast.If) and bool(node.orelse) and any(
-        isinstance(n, ast.Call) and ast.unparse(n.func) == "self.cdf_pdf_ratio"
+        isinstance(n, ast.Call) and U(n.func) == "self.cdf_pdf_ratio"
         for st in node.body for n in ast.walk(st))
 
 
@@ -107,10 +107,10 @@ def run(prog, tier):
                 if is_tail_switch(n):
                     t = n.test
                     okg = (isinstance(t, ast.Compare) and len(t.ops) == 1 and isinstance(t.ops[0], (ast.Lt, ast.LtE))
-                           and ast.unparse(t.left) == "Z" and _neg_literal(t.comparators[0]))
+                           and U(t.left) == "Z" and _neg_literal(t.comparators[0]))
                     obs.append(struct_ob("tail-guard", qual(c, m_), okg,
                                          f"the erfcx-based far-tail arm must be guarded by `Z < c` with c <= 0 (erfcx(-Z/sqrt 2) overflows "
-                                         f"for large positive Z, so the value would not be EI there); guard is `{ast.unparse(t)}`",
+                                         f"for large positive Z, so the value would not be EI there); guard is `{U(t)}`",
                                          ACQ, n.lineno))
         branches = [("orelse", "main"), ("body", "far-tail")] if has_branch else [("orelse", "")]
         for br, label in branches:
@@ -138,23 +138,23 @@ def run(prog, tier):
     # ---------------------------------------------------------------- bounds
     go = prog.cls("GpOptimiser")
     c, de = prog.method("GpOptimiser", "diff_evo")
-    calls = [n for n in ast.walk(de) if isinstance(n, ast.Call) and ast.unparse(n.func) == "differential_evolution"]
-    ok = len(calls) == 1 and (lambda b: b is not None and ast.unparse(b) == "self.bounds")(get_kw(calls[0], "bounds", 1)) \
-        and ast.unparse(get_kw(calls[0], "func", 0)) == "self.acquisition.opt_func"
+    calls = [n for n in ast.walk(de) if isinstance(n, ast.Call) and U(n.func) == "differential_evolution"]
+    ok = len(calls) == 1 and (lambda b: b is not None and U(b) == "self.bounds")(get_kw(calls[0], "bounds", 1)) \
+        and U(get_kw(calls[0], "func", 0)) == "self.acquisition.opt_func"
     obs.append(struct_ob("bounds-passed", qual(c, de), ok,
                          f"differential_evolution must minimise the acquisition objective over self.bounds: "
-                         f"`{ast.unparse(calls[0]) if calls else None}`", OPT, de.lineno))
+                         f"`{U(calls[0]) if calls else None}`", OPT, de.lineno))
     c, lb = prog.method("GpOptimiser", "launch_bfgs")
-    calls = [n for n in ast.walk(lb) if isinstance(n, ast.Call) and ast.unparse(n.func) == "fmin_l_bfgs_b"]
-    ok = len(calls) == 1 and (lambda b: b is not None and ast.unparse(b) == "self.bounds")(get_kw(calls[0], "bounds")) \
-        and ast.unparse(get_kw(calls[0], "func", 0)) == "self.acquisition.opt_func_gradient" \
-        and (lambda a: a is not None and ast.unparse(a) == "False")(get_kw(calls[0], "approx_grad"))
+    calls = [n for n in ast.walk(lb) if isinstance(n, ast.Call) and U(n.func) == "fmin_l_bfgs_b"]
+    ok = len(calls) == 1 and (lambda b: b is not None and U(b) == "self.bounds")(get_kw(calls[0], "bounds")) \
+        and U(get_kw(calls[0], "func", 0)) == "self.acquisition.opt_func_gradient" \
+        and (lambda a: a is not None and U(a) == "False")(get_kw(calls[0], "approx_grad"))
     obs.append(struct_ob("bounds-passed", qual(c, lb), ok,
                          f"L-BFGS-B must minimise opt_func_gradient (analytic gradient) with bounds=self.bounds: "
-                         f"`{ast.unparse(calls[0]) if calls else None}`", OPT, lb.lineno))
+                         f"`{U(calls[0]) if calls else None}`", OPT, lb.lineno))
     ac = prog.cls("AcquisitionFunction")
     sp = ac.methods.get("starting_positions")
-    txt = ast.unparse(sp)
+    txt = U(sp)
     ok = ("lwr += widths * 0.01" in txt and "upr -= widths * 0.01" in txt and "widths = upr - lwr" in txt
           and "samples = [minimum(upr, maximum(lwr, s)) for s in samples]" in txt
           and "start = lwr + (upr - lwr) * random(size=L)" in txt
@@ -163,7 +163,7 @@ def run(prog, tier):
                          "start points must be clamped into / drawn from the (inward-shrunk) bounds box and the best local sample "
                          "by the objective must be kept", ACQ, sp.lineno))
     c, ms = prog.method("GpOptimiser", "multistart_bfgs")
-    txt = ast.unparse(ms)
+    txt = U(ms)
     ok = ("self.acquisition.starting_positions(self.bounds)" in txt and "sorted(results, key=lambda x: float(x[1]))[0]" in txt)
     obs.append(struct_ob("bounds-passed", qual(c, ms), ok,
                          "multi-start must start from starting_positions(self.bounds) and keep the lowest objective", OPT, ms.lineno))
@@ -187,22 +187,22 @@ def run(prog, tier):
             if pred(st):
                 return st.lineno
         return None
-    l_x = line_of(lambda s: isinstance(s, ast.Assign) and ast.unparse(s) == "self.x = append(self.x, new_x, axis=0)")
-    l_y = line_of(lambda s: isinstance(s, ast.Assign) and ast.unparse(s) == "self.y = append(self.y, new_y)")
-    gp_st = [s for s in body if isinstance(s, ast.Assign) and ast.unparse(s.targets[0]) == "self.gp"]
-    l_up = line_of(lambda s: isinstance(s, ast.Expr) and ast.unparse(s.value) == "self.acquisition.update_gp(self.gp)")
+    l_x = line_of(lambda s: isinstance(s, ast.Assign) and U(s) == "self.x = append(self.x, new_x, axis=0)")
+    l_y = line_of(lambda s: isinstance(s, ast.Assign) and U(s) == "self.y = append(self.y, new_y)")
+    gp_st = [s for s in body if isinstance(s, ast.Assign) and U(s.targets[0]) == "self.gp"]
+    l_up = line_of(lambda s: isinstance(s, ast.Expr) and U(s.value) == "self.acquisition.update_gp(self.gp)")
     ok, why = False, ""
     if l_x and l_y and len(gp_st) == 1 and l_up:
         call = gp_st[0].value
-        kw = {k.arg: ast.unparse(k.value) for k in call.keywords}
-        ok = (ast.unparse(call.func) == "GpRegressor" and kw.get("x") == "self.x" and kw.get("y") == "self.y"
+        kw = {k.arg: U(k.value) for k in call.keywords}
+        ok = (U(call.func) == "GpRegressor" and kw.get("x") == "self.x" and kw.get("y") == "self.y"
               and kw.get("y_err") == "self.y_err" and max(l_x, l_y) < gp_st[0].lineno < l_up)
         why = f"append lines {l_x},{l_y}; refit line {gp_st[0].lineno} with {kw}; update line {l_up}"
     obs.append(struct_ob("refit-order", qual(c, ae), ok,
                          "add_evaluation must append the new data, refit the regressor on the appended arrays, then update the "
                          "acquisition with the new regressor: " + why, OPT, ae.lineno))
     ug = ac.methods.get("update_gp")
-    body_txt = [ast.unparse(s) for s in ug.body]
+    body_txt = [U(s) for s in ug.body]
     g = ug.args.args[1].arg
     obs.append(struct_ob("refit-order", qual(ac, ug), body_txt == [f"self.gp = {g}", f"self.mu_max = {g}.y.max()"],
                          f"update_gp must install the regressor and set the incumbent to the maximum of its data: {body_txt}",
